@@ -67,8 +67,6 @@ def gen_case(rng, n_ops, faults=False, crashes=False):
         rd = ischan and su in readers
         if ischan:
             asx = ""
-            if rd and k >= 82 and k < 96:
-                k = rng.choice([10, 25, 40, 55, 65, 75, 95])     # a reader sticks to sub/leave/pub/note/get/setsub(self)/deltopic
         ta = ("chn:" + t) if (ischan and (rd != rng.chance(1, 20))) else t
         if (ntop == 0 and not p2p) or k < 4:
             if ntop >= 3:
@@ -121,7 +119,7 @@ def gen_case(rng, n_ops, faults=False, crashes=False):
             if rng.chance(5, 6):
                 o += f" mode={pick_mode(rng)}"
         elif k < 86:
-            o = f"setdesc {s} {t}"
+            o = f"setdesc {s} {ta if not p2p else t}"
             if rng.chance(1, 3):
                 o += f" auth={pick_mode(rng)}"
             if rng.chance(1, 4):
@@ -136,9 +134,9 @@ def gen_case(rng, n_ops, faults=False, crashes=False):
                 lo = rng.below(8)
                 hi = rng.choice([0, lo, lo + 1, lo + 2, lo + 4, 100, lo - 1])
                 rs.append(f"{lo}:{hi}")
-            o = f"delmsg {s} {t} {','.join(rs)}" + (" hard=1" if rng.chance(1, 2) else "")
+            o = f"delmsg {s} {ta if not p2p else t} {','.join(rs)}" + (" hard=1" if rng.chance(1, 2) else "")
         elif k < 95:
-            o = f"delsub {s} {t} {rng.choice(users)}"
+            o = f"delsub {s} {ta if not p2p else t} {rng.choice(users)}"
         elif k < 96:
             o = f"deltopic {s} {ta if not p2p else t}" + (" hard=1" if rng.chance(1, 2) else "")
         elif k < 97:
